@@ -171,7 +171,10 @@ def check_allocators(prog, rep, rule):
     # ---- shared store ----
     st = storage_class(prog, SHARED_SHELL)
     mod = st.module
-    for name, fn in st.methods.items():
+    for name, fn0 in st.methods.items():
+        if name.startswith('_') and not (name.startswith('__') and name.endswith('__')):
+            continue        # private helpers are analysed inlined into the public operations that call them
+        fn = inline(prog, st, fn0)
         for n in walk_no_nested(fn):
             if isinstance(n, (ast.Assign, ast.AugAssign)):
                 tg = n.targets if isinstance(n, ast.Assign) else [n.target]
@@ -232,6 +235,7 @@ def check_allocators(prog, rep, rule):
     ab = dj.methods.get('add_blank_node_to_graph')
     if ab is None:
         raise AnalysisError('disjoint add_blank_node_to_graph vanished')
+    ab = inline(prog, dj, ab)
     fq = f'{dj.name}.add_blank_node_to_graph'
     addn = [n for n in walk_no_nested(ab) if isinstance(n, ast.Call) and call_name(n) == 'add_node']
     if len(addn) != 1 or not addn[0].args:
@@ -262,7 +266,7 @@ def check_allocators(prog, rep, rule):
     if not bump_ok:
         rep.violation(rule, loc(dmod, ab), fq, 'counter not advanced by one', 'the per-graph id counter must advance by one per node')
     for name in ('add_graph', 'add_graph_direct'):
-        fn = dj.methods.get(name)
+        fn = inline(prog, dj, dj.methods.get(name))
         sets = [n for n in walk_no_nested(fn) if isinstance(n, ast.Assign) and
                 any(ast.unparse(t) == 'self.graph_node_ids[graph_id]' for t in n.targets)]
         rep.instance(rule, f'{dj.name}.{name}: {[norm(s) for s in sets]}')
@@ -279,6 +283,25 @@ def check_allocators(prog, rep, rule):
             v = sets[0].value
             okv = isinstance(v, ast.BinOp) and isinstance(v.op, ast.Add) and any(
                 _is_one(b) and _is_count_of(a, graphs_of_id) for a, b in ((v.left, v.right), (v.right, v.left)))
+        if okv:
+            # when the count is read from the stored graph, the imported nodes must already be in it
+            v = sets[0].value
+            cnt = v.left if not _is_one(v.left) else v.right
+            reads_store = 'self.graphs[graph_id]' in ast.unparse(cnt) or any(
+                isinstance(x, ast.Name) and x.id in (graphs_of_id - _relabelled_names(fn) - {'self.graphs[graph_id]'}) for x in ast.walk(cnt))
+            if reads_store:
+                from .cfg import CFG
+                cfg_ = CFG(fn)
+                dom_ = cfg_.dominators()
+                fills = [n for n in walk_no_nested(fn) if (isinstance(n, ast.Assign) and any(ast.unparse(t) == 'self.graphs[graph_id]' for t in n.targets)
+                                                          and not (isinstance(n.value, ast.Call) and call_name(n.value) == 'Graph' and not n.value.args)) or
+                         (isinstance(n, ast.Call) and isinstance(n.func, ast.Attribute) and n.func.attr == 'add_nodes_from')]
+                cn = flow.node_of(cfg_, sets[0])
+                if not fills or cn is None or not all(flow.node_of(cfg_, f_) is not None and flow.node_of(cfg_, f_).id in dom_.get(cn.id, set()) for f_ in fills):
+                    rep.violation(rule, loc(dmod, sets[0]), f'{dj.name}.{name}', 'counter computed before the imported nodes are stored',
+                                  'the next free internal id is computed from the stored graph before the imported nodes have been put into it '
+                                  '(it counts the old, emptied graph): the counter restarts at 1 and the next node added overwrites an '
+                                  'imported node')
         if not okv:
             rep.violation(rule, loc(dmod, fn), f'{dj.name}.{name}', 'counter not set to node count + 1 after import',
                           'after an import (dense ids 1..n) the counter must be n + 1')
